@@ -66,6 +66,17 @@ def make_scenario(assign, rng, share_exe=None, n_val=None, deco=None, retries=No
             r['adapter'] = False
         runs.append(r)
         scripts.append(sc)
+    # executors in different directories whose executable has the same file name: the same name is not the same
+    # executable (`exe` stays the identity of path/executable)
+    if rng.random() < 0.3:
+        names = [rng.randrange(2) for _ in range(len(runs))]
+        by_exe = {}
+        for r, nm in zip(runs, names):
+            r['file'] = by_exe.setdefault(r['exe'], nm)
+    # some runs have a time limit (a scripted process never exceeds it)
+    for r in runs:
+        if rng.random() < 0.3:
+            r['maxtime'] = rng.choice([30, 600, 1200])
     # runs on an executor with a build all carry it (the build belongs to the executor)
     eb = {}
     for r in runs:
@@ -164,6 +175,16 @@ def run_scenario(ck, scn, scripts, sched, choices, faulty, tag, stop_at=None, wi
     obsB = run_with_interrupt(wd, scn, sessB, stop_at)
     ck.impl_traces += 1
     obsB['file_new'] = _new_rows(file_before, obsB['file'])
+    files = {}
+    for r in scn['runs']:
+        if r.get('file') is not None:
+            files.setdefault(r['file'], set()).add(r['exe'])
+    if any(len(v) > 1 for v in files.values()):
+        ck.count('same-file-name-in-different-directories')
+        if any(r['beh'] == 'missing' and len(files.get(r.get('file'), ())) > 1 for r in scn['runs']):
+            ck.count('missing-binary-shares-file-name-with-intact-executor')
+    if stop_at is not None and any(r.get('maxtime') is not None for r in scn['runs']):
+        ck.count('abort-with-max_invocation_time')
     for r, sc in zip(scn['runs'], scripts):
         ck.count('beh:' + r['beh'])
         w = r.get('warmup') or 0
@@ -486,6 +507,9 @@ def run(ck):
     for _ in range(6 if quick else 40):
         assign = [rng.choice(['ok', 'ok', 'fail0', 'failk']) for _ in range(rng.randint(1, 3))]
         scn, scripts = make_scenario(assign, rng)
+        if _ % 2 == 0:
+            for r in scn['runs']:
+                r['maxtime'] = rng.choice([30, 600])
         total = sum(len(s) for s in scripts)
         for k in range(1, total + 1):
             run_scenario(ck, scn, scripts, rng.choice(scheds), [rng.randrange(12) for _ in range(60)], False,
